@@ -129,9 +129,23 @@ def check_wrap(cfg, crate, rep):
         # the `?` on sign
         tried = any(core(v) is not None and n2.get("e") is n for v, n2, f2, c2 in I.tries)
         how = None
-        for node_, ps_ in common.hir_walk_p(crate.body(SIGN_DER)["hir"]):
-            if node_ is n:
-                how = _consumed(node_, ps_)
+        for bn_ in [SIGN_DER] + sorted(I.inlined):
+            bb_ = crate.bodies.get(bn_)
+            if not bb_ or "hir" not in bb_:
+                continue
+            for node_, ps_ in common.hir_walk_p(bb_["hir"]):
+                if node_ is n:
+                    how = _consumed(node_, ps_)
+                    if bn_ != SIGN_DER and how in ("?", "tail", "return", "closure-result"):
+                        # inside a helper of sign_der: the helper's own result must be propagated by its caller too
+                        hows_ = []
+                        for bn2_ in [SIGN_DER] + sorted(I.inlined):
+                            b2_ = crate.bodies.get(bn2_)
+                            for n2_, ps2_ in common.hir_walk_p((b2_ or {}).get("hir") or {}):
+                                if n2_.get("k") in ("Call", "MethodCall") and common.facts_norm(n2_.get("inst") or n2_.get("callee") or "") == bn_:
+                                    hows_.append(_consumed(n2_, ps2_))
+                        if not hows_ or not all(h_ in ("?", "tail", "return", "closure-result") for h_ in hows_):
+                            how = None
         rep.ob("C01.err", key + "|sign?", tried or how in ("?", "tail", "return", "closure-result"), "the result of KeyPair::sign is propagated (`?` or returned as the closure's result), never discarded", found=how, sp=n.get("sp"))
     # outer AlgorithmIdentifier from self.alg through write_alg_ident
     alg = kids[1][2]
@@ -282,7 +296,7 @@ def check_signer_and_only(cfg, crate, rep):
             continue
         for callee, n, ps in common.calls_in(b):
             if callee == "key_pair::KeyPair::sign":
-                callers.add(name)
+                callers.update(common.known_owners(crate, name))      # a helper of sign_der acts on its behalf
         for n in common.hir_walk(b["hir"]):
             if n["k"] == "Struct" and (n.get("adt") or "").endswith(("certificate::Certificate", "csr::CertificateSigningRequest", "crl::CertificateRevocationList")):
                 lits.setdefault(n["adt"], set()).update(common.known_owners(crate, name))
